@@ -428,6 +428,46 @@ pub fn run_c09(ctx: &Ctx) -> Report {
             "wall_s": (st.wall * 100.0).round() / 100.0});
     }
     all.merge(&st.local);
+    // (c) count ladder: the list of n elements in every order shape / with one repeat against the
+    // same list in ascending order, for every n -- a sort or de-duplication that changes its
+    // algorithm at a count, or a limit on the number of subtags, shows as a dependence on order or
+    // repetition only beyond that count
+    {
+        use super::counts::{count_bounds, input_text, specs, Spec};
+        let (n_max, rep_max) = count_bounds(ctx);
+        // (dimension, repeats are within the property's wording)
+        let dims: [(&str, bool, &'static str); 5] = [
+            ("variants", true, "variant order/repetition (count ladder)"),
+            ("tlang_variants", true, "tlang variant order/repetition (count ladder)"),
+            ("attributes", true, "attribute order/repetition (count ladder)"),
+            ("keywords", false, "keyword order (count ladder)"),
+            ("tfields", false, "tfield order (count ladder)"),
+        ];
+        let groups: Vec<(usize, usize)> = (0..dims.len()).flat_map(|d| (0..=n_max).map(move |n| (d, n))).collect();
+        let all_specs = specs(n_max, rep_max);
+        let st = par_range(ctx, "c.count", groups.len() as u64, 1, &|gi, l| {
+            let (d, n) = groups[gi as usize];
+            let (dim, reps, what) = dims[d];
+            let basev = input_text(dim, &Spec { n, kind: 0, a: 0, b: 0 }).into_bytes();
+            let base = Base::new(&basev);
+            if matches!(base.loc, R::Ok(..)) {
+                l.nontrivial += 1;
+            }
+            for sp in all_specs.iter().filter(|sp| sp.n == n && sp.kind != 0 && (reps || !sp.has_repeat())) {
+                let t = input_text(dim, sp);
+                check_pair(&base, t.as_bytes(), what, l, &coll);
+                let up = t.to_ascii_uppercase().replace('-', "_");
+                check_pair(&base, up.as_bytes(), what, l, &coll);
+            }
+        });
+        total_pairs += st.local.counters[0];
+        nontrivial += st.local.nontrivial;
+        let e = rep.extra.entry("engines".to_string()).or_insert_with(|| json!({}));
+        e["c.count"] = json!({"groups": groups.len(), "pairs": st.local.counters[0], "pairs_where_transformed_parses": st.local.counters[1], "n_max": n_max, "rep_max": rep_max,
+            "transformations": "for every list position with set semantics (variants, tlang variants, attributes; keywords and tfields with distinct keys) and every n <= n_max: the list in descending order, every rotation, a fixed scramble, and (variants, attributes; n <= rep_max) with a second copy of element i at position j for every i, j -- each against the ascending list, each also in UPPER case with '_'",
+            "wall_s": (st.wall * 100.0).round() / 100.0});
+        all.merge(&st.local);
+    }
     rep.collector = coll;
     rep.states = total_pairs;
     rep.transitions = total_pairs;
